@@ -8,6 +8,8 @@ package routerig
 import (
 	"errors"
 	"fmt"
+	"hash"
+	"hash/fnv"
 	"net/url"
 	"sort"
 	"strconv"
@@ -55,6 +57,27 @@ func (p *recPartitioner) RequiresConsistency() bool { return p.inner.RequiresCon
 func (p *recPartitioner) MessageRequiresConsistency(m *sarama.ProducerMessage) bool {
 	return p.consistency(m)
 }
+
+// gatedHash is the hash.Hash32 a scenario hands to WithCustomHashFunction: user-supplied code through which the
+// controller sees (and can hold) a partitioner between writing the key and reading the sum. Each call of the factory
+// must give the partitioner of one topic its OWN hasher; a partitioner that shares one is visible when two topics
+// hash at the same time.
+type gatedHash struct {
+	r  *rig
+	h  hash.Hash32
+	id int32
+}
+
+func (g *gatedHash) Write(b []byte) (int, error) {
+	n, err := g.h.Write(b)
+	g.r.c.Gate("hash.mid", string(b), g.id)
+	return n, err
+}
+func (g *gatedHash) Sum(b []byte) []byte { return g.h.Sum(b) }
+func (g *gatedHash) Reset()              { g.h.Reset() }
+func (g *gatedHash) Size() int           { return g.h.Size() }
+func (g *gatedHash) BlockSize() int      { return g.h.BlockSize() }
+func (g *gatedHash) Sum32() uint32       { return g.h.Sum32() }
 
 // custom partitioners returning something illegal
 type fixedPartitioner struct {
@@ -116,13 +139,16 @@ func run(c *gx.Ctl, pt string, leaderless int, keys string, nm int) *gx.Outcome 
 	r.cl = cl
 	cl.AddBroker(1)
 	cl.AddTopic("t", 1, 1, 1)
+	if pt == "chash2" {
+		cl.AddTopic("u", 1, 1, 1)
+	}
 	for p := 0; p < nparts; p++ {
 		if leaderless&(1<<p) != 0 {
 			cl.Part("t", int32(p)).Leader = -1
 		}
 	}
 	cl.UrgentMetadata = true
-	c.AutoRelease = func(string) bool { return true } // schedules are not the subject here; default order only
+	c.AutoRelease = func(site string) bool { return !(pt == "chash2" && site == "hash.mid") } // schedules are not the subject here, except for the gated custom hash
 
 	conf := sarama.NewConfig()
 	conf.Version = sarama.V2_1_0_0
@@ -136,6 +162,15 @@ func run(c *gx.Ctl, pt string, leaderless int, keys string, nm int) *gx.Outcome 
 	conf.Producer.Retry.Backoff = 50 * time.Millisecond
 	conf.Producer.Retry.Max = 1
 	conf.ChannelBufferSize = 16
+	// ONE constructor for all topics, as an application configures it (Producer.Partitioner = NewCustomPartitioner(...))
+	nh := int32(0)
+	customCtor := sarama.NewCustomPartitioner(sarama.WithCustomHashFunction(func() hash.Hash32 {
+		r.mu.Lock()
+		nh++
+		id := nh
+		r.mu.Unlock()
+		return &gatedHash{r: r, h: fnv.New32a(), id: id}
+	}))
 	mk := func(topic string) sarama.Partitioner {
 		var inner sarama.Partitioner
 		switch pt {
@@ -149,6 +184,8 @@ func run(c *gx.Ctl, pt string, leaderless int, keys string, nm int) *gx.Outcome 
 			inner = sarama.NewRoundRobinPartitioner(topic)
 		case "manual":
 			inner = sarama.NewManualPartitioner(topic)
+		case "chash2":
+			inner = customCtor(topic)
 		case "cneg":
 			inner = fixedPartitioner{func(n int32) (int32, error) { return -1, nil }}
 		case "cn":
@@ -224,6 +261,9 @@ func run(c *gx.Ctl, pt string, leaderless int, keys string, nm int) *gx.Outcome 
 				r.mu.Unlock()
 				id := fmt.Sprintf("m%d", i)
 				m := &sarama.ProducerMessage{Topic: "t", Value: sarama.StringEncoder(id), Metadata: id, Partition: int32(i % nparts)}
+				if pt == "chash2" && i%2 == 1 {
+					m.Topic = "u"
+				}
 				switch keys {
 				case "all":
 					m.Key = sarama.StringEncoder(fmt.Sprintf("key-%d", i))
@@ -328,6 +368,18 @@ func (r *rig) judge(pt string, leaderless int) *gx.Outcome {
 				out.Violate("C17", "routing-illegal-choice-not-failed", "%s: partitioner returned %d (error %v) for %d partitions but the message was sent (wire %v) / reported %+v (%s)", id, c.choice, c.err, c.offered, wire[id], e, cfg)
 			}
 			continue
+		}
+		if pt == "chash2" {
+			// equal keys map to equal partitions: the choice must be what the configured hash function gives for THIS key
+			h := fnv.New32a()
+			h.Write([]byte(fmt.Sprintf("key-%d", i)))
+			ref := int32(h.Sum32()) % c.offered
+			if ref < 0 {
+				ref = -ref
+			}
+			if c.choice != ref {
+				out.Violate("C17", "hash-partitioner-chose-by-another-key", "%s (key key-%d, %d partitions): the custom-hash partitioner chose %d, the hash of this key gives %d - partitioners of two topics hashing at the same time (%s)", id, i, c.offered, c.choice, ref, cfg)
+			}
 		}
 		want := list[c.choice]
 		for _, wp := range wire[id] {
